@@ -806,7 +806,11 @@ func (in *interp) harnessAPI(fr *frame, name string, args []value) (value, bool)
 		if len(m) == 0 {
 			in.unsupported("vJSONBind: empty message")
 		}
-		in.jsonBinds = append(in.jsonBinds, jsonBind{first: in.asTerm(m[0], "vJSONBind byte"), n: len(m), obj: args[1]})
+		jb := jsonBind{first: in.asTerm(m[0], "vJSONBind byte"), n: len(m), obj: args[1]}
+		for _, e := range m {
+			jb.all = append(jb.all, in.asTerm(e, "vJSONBind byte"))
+		}
+		in.jsonBinds = append(in.jsonBinds, jb)
 		return nil, true
 	case "vSetStub":
 		// vSetStub(nameContains string, results ...interface{}): the next calls of a by-name stub of
@@ -817,6 +821,7 @@ func (in *interp) harnessAPI(fr *frame, name string, args []value) (value, bool)
 			res = a
 		}
 		in.harnessStubs[sub] = res
+		delete(in.harnessCursor, sub)
 		return nil, true
 	case "vStubCalls":
 		// number of calls so far on this path of by-name stubbed functions whose name contains the argument
@@ -1289,7 +1294,18 @@ func (in *interp) runStub(fr *frame, fi *fnInfo, args []value) value {
 			if !strings.Contains(fi.name, sub) {
 				continue
 			}
+			// more values than the function has results: successive calls take successive groups (a
+			// scripted sequence, e.g. the lines a reader returns); the last group repeats
 			k := 0
+			if n := res.Len(); n > 0 && len(vals) > n {
+				g := in.harnessCursor[sub]
+				if (g+1)*n > len(vals) {
+					g = len(vals)/n - 1
+				} else {
+					in.harnessCursor[sub] = g + 1
+				}
+				k = g * n
+			}
 			return mk(func(t types.Type, i int) value {
 				if k >= len(vals) {
 					in.unsupported("harness stub " + fi.name + ": too few results registered")
@@ -1354,6 +1370,45 @@ func (in *interp) runStub(fr *frame, fi *fnInfo, args []value) value {
 			}
 		}
 		return in.makeError("stubbed json.Unmarshal: no object bound to these bytes")
+	case "readjsonbind":
+		// go-wire ReadJSON(o interface{}, bytes []byte, err *error) interface{} : *o receives the object bound
+		// to these bytes by vJSONBind (concrete bytes are matched by content), otherwise *err is set
+		data, _ := args[1].([]value)
+		dst, ok := args[0].(iface)
+		if len(data) > 0 && ok {
+			for _, b := range in.jsonBinds {
+				if b.n != len(data) {
+					continue
+				}
+				same := b.first == data[0]
+				if same && len(b.all) == len(data) {
+					for i := range data {
+						if b.all[i] != data[i] {
+							same = false
+							break
+						}
+					}
+				}
+				if !same {
+					continue
+				}
+				src, ok2 := b.obj.(iface)
+				if !ok2 || !sameType(src.t, dst.t) {
+					break
+				}
+				sp, _ := src.v.(*value)
+				dp, _ := dst.v.(*value)
+				if sp == nil || dp == nil {
+					break
+				}
+				store(deref(dst.t), dp, load(deref(src.t), sp))
+				return args[0]
+			}
+		}
+		if ep, ok := args[2].(*value); ok && ep != nil {
+			*ep = in.makeError("stubbed ReadJSON: no object bound to these bytes")
+		}
+		return args[0]
 	case "edverify":
 		// idealised ed25519.Verify(pub *[32]byte, msg []byte, sig *[64]byte): the signature says whether it
 		// is valid (byte 0 == 1) and which key made it (byte 2 == first byte of the public key)
